@@ -307,6 +307,7 @@ func TestC10(t *testing.T) {
 	core.Rapid(r, core.Check[rtCase]{Name: "roundtrip", Gen: genRoundTrip, Exec: execRoundTrip, HangLimit: 0}, r.N(3000, 20000))
 	core.Rapid(r, core.Check[typedCase]{Name: "typed-fixpoint", Gen: genTyped, Exec: execTyped}, r.N(600, 5000))
 	core.Rapid(r, core.Check[histCase]{Name: "format-histories", Gen: genHist, Exec: execHist}, r.N(300, 3000))
+	core.Rapid(r, core.Check[fmtPastCase]{Name: "formatted-then-changed", Gen: genFmtPast, Exec: execFmtPast}, r.N(1500, 15000))
 	core.Rapid(r, core.Check[deepCase]{Name: "deep-and-cyclic", Gen: genDeep, Exec: execDeep}, r.N(300, 3000))
 	// one very long leaf (a document body, an attachment): a string of tens of thousands of characters as a value
 	// and as a key, plain, with escapes, with two-byte letters
